@@ -56,18 +56,51 @@ func (s *c6Scene) visibleMesh(md c6Model) (*c6Mesh, bool) {
 	return nil, false
 }
 
-// right-hand sides of gltf_topo_carried_iff and gltf_mode_index_iff
-func (s *c6Scene) topoExpect() (triOrPoint, countFits bool) {
-	triOrPoint, countFits = true, true
+// the mode AddMesh writes for a topology (repaired writer): -1 = omitted (TRIANGLES)
+func c6ModeOf(topo int) int {
+	switch topo {
+	case 1:
+		return 0
+	case 3:
+		return 1
+	case 5:
+		return 2
+	case 4:
+		return 3
+	}
+	return -1
+}
+
+func c6CountFits(mode, n int) bool {
+	switch mode {
+	case -1, 4:
+		return n%3 == 0
+	case 0:
+		return true
+	case 1:
+		return n%2 == 0
+	case 2, 3:
+		return n >= 2
+	case 5, 6:
+		return n >= 3
+	}
+	return false
+}
+
+// what gltf_topo_full predicts for an ACCEPTED scene: the mode renders the topology of every visible model (always, quads
+// and undeclared topologies are never accepted), and the index counts fit the written modes iff the models' own index
+// counts fit their topologies (right-hand side of gltf_mode_index_iff / gltf_doc_mode_count_iff)
+func (s *c6Scene) topoExpect() (faithful, countFits bool) {
+	faithful, countFits = true, true
 	for _, md := range s.models {
 		m, ok := s.visibleMesh(md)
 		if !ok {
 			continue
 		}
-		if m.topo != 0 && m.topo != 1 {
-			triOrPoint = false
+		if m.topo == 2 || m.topo > 5 {
+			faithful = false
 		}
-		if m.topo != 1 && len(m.idx)%3 != 0 {
+		if !c6CountFits(c6ModeOf(m.topo), len(m.idx)) {
 			countFits = false
 		}
 	}
@@ -265,11 +298,11 @@ func (c *Ctx) c6TopoLines(s *c6Scene, st string, o *c6Out, binTok string) {
 	}
 	c.Emit("c06.topo", st+" "+o.dtok+" "+binTok, b2s(tp)+" "+b2s(cf)+" "+b2s(cf))
 	if tp && cf {
-		c.Note("topo.mode-faithful")
+		c.Note("topo.mode-faithful-count-fits")
 		if len(o.bin) < 4000 {
 			c.Emit("c06.holds.topo", st+" "+o.dtok+" "+binTok, "true")
 		}
 	} else {
-		c.Note("topo.mode-unfaithful")
+		c.Note("topo.index-count-unfit")
 	}
 }
